@@ -53,6 +53,8 @@ pub fn pick_opts(seed: u64, idx: u64, mixed: bool) -> world::Opts {
         single_welcome: rng.random_bool(0.5),
         encrypt_controls: rng.random_bool(0.5),
         retention: 3,
+        cap_x: None,
+        cap_y: None,
         sqlite: false,
         backends,
     }
@@ -73,6 +75,8 @@ fn opts_from_json(v: &Value) -> world::Opts {
         single_welcome: v["single_welcome"].as_bool().unwrap_or(true),
         encrypt_controls: v["encrypt_controls"].as_bool().unwrap_or(false),
         retention: v["retention"].as_u64().unwrap_or(3),
+        cap_x: None,
+        cap_y: None,
         sqlite: v["sqlite"].as_bool().unwrap_or(false),
         backends: v["backends"].as_array().map(|a| a.iter().map(|b| match b.as_str().unwrap() { "awslc" => Backend::AwsLc, "rustcrypto" => Backend::RustCrypto, _ => Backend::Openssl }).collect()).unwrap_or(vec![Backend::Openssl]),
     }
@@ -155,10 +159,11 @@ fn main() {
     let cmd = args.get(1).map(|s| s.as_str()).unwrap_or("");
     let rc = match cmd {
         "treemath" => {
+            std::panic::set_hook(Box::new(|_| {}));
             let out = arg(&args, "--out").expect("--out");
             let st = treemath::dump(&out, arg_u64(&args, "--max-log", 12) as u32, arg_u64(&args, "--pair-log", 7) as u32,
                 arg_u64(&args, "--samples", 2000) as u32, arg_u64(&args, "--seed", 1)).expect("io");
-            println!("{}", json!({"rows": st.rows, "node_rows": st.node_rows, "pair_rows": st.pair_rows, "bfs_rows": st.bfs_rows, "bound_rows": st.bound_rows, "samples": st.samples}));
+            println!("{}", json!({"rows": st.rows, "node_rows": st.node_rows, "pair_rows": st.pair_rows, "bfs_rows": st.bfs_rows, "bound_rows": st.bound_rows, "samples": st.samples, "panics": st.panics}));
             0
         }
         "replay" => cmd_replay(&args),
